@@ -16,6 +16,7 @@ from ..gen import mdgen
 ID = "C13"
 PROPS_FILE = "Props/C13.v"
 PROPS_EXTRA = ["Props/C13e2e.v"]   # glue: compile oracle instantiated with the parser+compiler model (Proofs/GlueMarkdown.v)
+MERGE = ["C13full"]   # whole-document suite `fulldoc` + Props/C13doc.v: oracles instantiated with the compiler / renderer models
 GEN_DEPS: List[str] = ["GenRegex", "GenBrace", "GenChars"]
 ALLOWED_AXIOMS: List[str] = []
 THEOREMS: Dict[str, str] = {
